@@ -53,6 +53,10 @@ THEOREMS = [
     "Nix.C17.C17_reopen_not_refused",
     "Nix.C17.C17_locking_fapl_refuses",
     "Nix.C17.C17_detached_loses",
+    "Nix.C17.C17_locking_close_ok",
+    "Nix.C17.C17_last_flush_wins",
+    "Nix.C17.C17_late_writes_bounded",
+    "Nix.C17.C17_chain_reopen_open",
 ]
 ASSUMPTIONS = [
     "libhdf5's H5Fflush and the operating system honour the flush: in the model `h5flush` IS `disk := cache`; "
@@ -805,10 +809,46 @@ def negative_control(ctx, chains):
         if "open_error" in r:
             return "unreadable"
         return "identical" if r.get("walk") == o["final_walk"] else "different"
+    def late(ic):
+        """flush(), then a few more writes of one kind, then the kill: what does the reopened file show?
+        (informational: the property promises nothing here and nothing is asserted)"""
+        i, chain = ic
+        tag = "late%d" % i
+        path = ctx.tmpfile("%s.nix" % tag)
+        out = ctx.tmpfile("%s.out.json" % tag)
+        g = chain["gens"][0]
+        prof = (["mixed"] + SPECIAL_PROFILES)[i % (1 + len(SPECIAL_PROFILES))]
+        spec = {"file": path, "mode": "w", "seed": gen_seed(chain, 0), "phases": g["phases"][:1], "end": "late",
+                "late_profile": prof, "late_ops": 5, "out": out, "big": False, "kill": True,
+                "compression": g.get("compression")}
+        rc, err = _run_py(ctx, spec, tag)
+        o = _load(out)
+        if o is None or rc != -9 or o.get("end_error"):
+            return None
+        obs = observe(ctx, path, tag, modes=("r",))
+        try:
+            os.unlink(path)
+        except OSError:
+            pass
+        r = obs.get("r", {})
+        if o.get("late_walk") == o["flush_points"][-1]:
+            what = "late-writes-changed-nothing"
+        elif "open_error" in r:
+            what = "unreadable"
+        elif r.get("walk") == o["final_walk"]:
+            what = "state-at-flush"
+        elif W.flatten(r.get("walk") or []) == o.get("late_walk"):
+            what = "state-with-late-writes"
+        else:
+            what = "neither(mixture-or-damaged)"
+        return "%s:%s" % (prof, what)
     res = [r for r in _pmap(one, list(enumerate(chains))) if r is not None]
+    lres = [r for r in _pmap(late, list(enumerate(chains))) if r is not None]
     return {"runs": len(res), "unreadable": res.count("unreadable"), "different": res.count("different"),
             "identical": res.count("identical"),
-            "detected_rate": (res.count("unreadable") + res.count("different")) / float(len(res)) if res else None}
+            "detected_rate": (res.count("unreadable") + res.count("different")) / float(len(res)) if res else None,
+            "kill_after_unflushed_later_writes(informational,nothing asserted)":
+                dict((k, lres.count(k)) for k in sorted(set(lres)))}
 
 
 def oracle(ctx, broken, hints):
